@@ -215,6 +215,16 @@ def apply(par, o: dict, tokens: list, variant: int = 0):
     if op == "strip_tags":
         # keep_heading=False: a heading's own spans are stripped too (the default protects them, as documented)
         return par.remove_spans(keep_heading=False) if o["tag"] == "span" else par.remove_links()
+    if op == "strip_self":
+        # the same removal called ON an inline element: its own tag stripped -> a new paragraph is returned (observed),
+        # otherwise the element is changed in place (the paragraph is observed)
+        el = nth_element(par, tokens, o["i"])
+        name = "text:span" if o["tag"] == "span" else "text:a"
+        if variant % 2 == 0 and hasattr(el, "remove_spans"):
+            res = el.remove_spans(keep_heading=False) if o["tag"] == "span" else el.remove_links()
+        else:
+            res = el.strip_tags(strip=(name,))
+        return res if el.tag == name else par
     if op == "delete":
         el = nth_element(par, tokens, o["i"])
         # ReferenceMarkStart.delete() is documented as deleting the matching end mark too: the operation record then names it
